@@ -158,6 +158,13 @@ class Failure(object):
                 'signature': list(self.sig), 'occurrences': self.count}
 
 
+# functions case -> case applied to every failing case before it is stored:
+# they add what the case depended on outside itself (e.g. which protocol
+# versions the shared connection context had carried before), so that a
+# replay in a fresh process can re-establish it.
+CASE_ANNOTATORS = []
+
+
 class Ctx(object):
     """Per-task context: counters, fingerprints, samples, failure buckets."""
 
@@ -205,6 +212,9 @@ class Ctx(object):
 
     def fail(self, component, clause, case, observed=None, expected=None,
              exc=None):
+        if isinstance(case, dict):
+            for fn in CASE_ANNOTATORS:
+                case = fn(case)
         case = enc(case)
         kf = match_known(self.prop, component, clause, case)
         if kf is not None:
